@@ -107,19 +107,21 @@ func (tnc *TNC) DialBandwidth(targetcall string, bw Bandwidth, connectRequests i
 		}
 	}
 
-	if err := tnc.arqCall(targetcall, connectRequests); err != nil {
-		for _, fn := range defers {
-			_ = fn()
-		}
-		return nil, err
-	}
-
+	// Ask before connecting: nothing must delay the creation of the connection
+	// once the TNC has reported CONNECTED, or a disconnect could slip in between.
 	mycall, err := tnc.MyCall()
 	if err != nil {
 		for _, fn := range defers {
 			_ = fn()
 		}
 		return nil, fmt.Errorf("Error when getting mycall: %s", err)
+	}
+
+	if err := tnc.arqCall(targetcall, connectRequests); err != nil {
+		for _, fn := range defers {
+			_ = fn()
+		}
+		return nil, err
 	}
 
 	tnc.data = &tncConn{
